@@ -217,14 +217,18 @@ def firstFit (L len assigned : Nat) : Option Nat :=
   if L + SCAN_SLACK ≤ len then none
   else (List.range (L + SCAN_SLACK - len)).find? fun b => assigned &&& rangeMask len b == 0
 
+/-- `length = field.length; if length is None: length = int(log(field.max_value, 2)) + 1` -/
+def Field.chosenLen (f : Field) : Nat :=
+  match f.length with
+  | some l => l
+  | none => autoLen f.maxValue
+
 /-- `_assign_field` -/
 def assignField (st : State) (assigned : Nat) (ident : Ident) (fv : Reqs) : Except Err (State × Nat) :=
   match getField st.entries ident fv with
   | none => .error .unavailable
   | some e =>
-    let len := match e.field.length with
-      | some l => l
-      | none => autoLen e.field.maxValue
+    let len := e.field.chosenLen
     let set (start : Nat) : State :=
       { st with entries := modifyField st.entries ident fv fun f => { f with length := some len, startAt := some start } }
     match e.field.startAt with
@@ -428,10 +432,7 @@ def specTagClosedB (es : List Entry) : Bool :=
 def allFixedB (es : List Entry) : Bool := es.all (·.field.isFixed)
 
 /-- width an entry will have after assignment -/
-def Entry.width (e : Entry) : Nat :=
-  match e.field.length with
-  | some l => l
-  | none => autoLen e.field.maxValue
+def Entry.width (e : Entry) : Nat := e.field.chosenLen
 
 /-- all sub-lists -/
 def sublists : List Entry → List (List Entry)
